@@ -306,6 +306,9 @@ func (x *Xlat) mergeElemsBridge(out *State, key string, m, cond, va, vb *Term) {
 		if !ok {
 			return
 		}
+		if !x.sortKnown(m.Sort) {
+			return
+		}
 		ab, ib := Const("a!", k1), Const("i!", k2)
 		lhs := Sel(Sel(m, ab), ib)
 		out.facts = append(out.facts, Forall([]Bind{{"a!", k1}, {"i!", k2}}, Eq(lhs, Ite(cond, Sel(Sel(va, ab), ib), Sel(Sel(vb, ab), ib))), []*Term{lhs}))
@@ -332,4 +335,16 @@ func (x *Xlat) mergeElemsBridge(out *State, key string, m, cond, va, vb *Term) {
 	tb, jb := Const("t!", SSlice), Const("j!", SInt)
 	lhs := x.atTerm(m, tb, jb, es)
 	out.facts = append(out.facts, Forall([]Bind{{"t!", SSlice}, {"j!", SInt}}, Eq(lhs, Ite(cond, x.atTerm(va, tb, jb, es), x.atTerm(vb, tb, jb, es))), []*Term{lhs}))
+}
+
+// sortKnown: every datatype mentioned by the sort has been materialised in this context.
+func (x *Xlat) sortKnown(s Sort) bool {
+	if k, v, ok := splitArrSort(s); ok {
+		return x.sortKnown(k) && x.sortKnown(v)
+	}
+	switch s {
+	case SInt, SReal, SBool, SRef, SStr, SSlice, SFunc, SIface:
+		return true
+	}
+	return x.ctx.dtByName[s] != nil
 }
